@@ -20,6 +20,7 @@ import os
 import re
 import shutil
 import tempfile
+import time
 from concurrent.futures import ThreadPoolExecutor
 
 import vf
@@ -65,6 +66,9 @@ def config_h(name, default=None):
 
 
 def build(ck):
+    if os.environ.get("C17_BDIR"):          # lets several scratch trees (mutants) be checked side by side
+        ck.bdir = os.environ["C17_BDIR"]
+        os.makedirs(ck.bdir, exist_ok=True)
     ck.forbid_scan()
     ck.build_proofs(PROP_MODULES, driver="drv_c17")
     cpp, ld, libs = tls_flags()
@@ -124,6 +128,7 @@ class Runner:
 
     def par_compare(self, cases, label, chunk=200, workers=8, nontrivial=None):
         ck = self.ck
+        t0 = time.time()
         chunks = list(vf.chunks(cases, chunk))
 
         def one(ch):
@@ -153,6 +158,8 @@ class Runner:
                 nfail += 1
                 ck.count(len(ch))
                 ck.cov["failing_chunks_not_minimised"] = ck.cov.get("failing_chunks_not_minimised", 0) + 1
+        ck.cov.setdefault("phase_s", {})[label] = round(time.time() - t0, 2)
+        ck.cov.setdefault("phase_cases", {})[label] = len(cases)
         return nfail
 
     def close(self):
@@ -558,7 +565,7 @@ def run_checked(ck, run, env, ca0, cipher_ok, curve_nid):
     ck.sample(prm[300][0])
 
     # sampled cross product incl. the extra certificate kinds, hosts, name sets, cuts
-    rs = [random_session(env, rng) for _ in range(ck.scale(800, 30000) * (4 if hard else 1))]
+    rs = [random_session(env, rng) for _ in range(ck.scale(600, 30000) * (4 if hard else 1))]
     nfail += run.par_compare(rs, "random-session", chunk=60, workers=12)
     ck.sample(rs[0][0])
 
